@@ -40,5 +40,11 @@ if go test -vet=off -count=1 -run 'Mutant|Demo' $pkgs > /tmp/vm/$id.b.log 2>&1; 
 echo "== suite with patch (demo files removed)"
 for p in "${demos[@]}"; do rm -f "$wt/$p"; done
 rm -f $(git ls-files --others --exclude-standard)
-if go test -vet=off -count=1 ./... > /tmp/vm/$id.suite.log 2>&1; then echo "SUITE_PASS"; else echo "SUITE_FAIL"; grep -E '^(--- FAIL|FAIL|panic)' /tmp/vm/$id.suite.log | head -5; fi
+if go test -vet=off -count=1 ./... > /tmp/vm/$id.suite.log 2>&1; then echo "SUITE_PASS";
+else
+  # client.TestSleep and client.TestSubscribeQOS2 are timing-sensitive and fail now and then on the unmodified tree
+  # when the machine is loaded: one re-run of the failing packages decides
+  echo "suite failed once: $(grep -E '^--- FAIL' /tmp/vm/$id.suite.log | tr '\n' ' ')"
+  if go test -vet=off -count=1 ./... > /tmp/vm/$id.suite2.log 2>&1; then echo "SUITE_PASS"; else echo "SUITE_FAIL"; grep -E '^(--- FAIL|FAIL|panic)' /tmp/vm/$id.suite2.log | head -5; fi
+fi
 } > "$out" 2>&1
